@@ -3,7 +3,7 @@ import os, random
 import vlib
 
 SD = os.path.join(vlib.SPECS, "crypto")
-WRAPS = ["malloc", "calloc", "realloc", "free", "strdup", "crypto_entropy_read", "open", "read", "time"]
+WRAPS = ["malloc", "calloc", "realloc", "free", "strdup", "crypto_entropy_read", "open", "read", "time", "fclose"]
 SRCS = ["alg/sha256.c", "alg/sha256_shani.c", "alg/sha256_sse2.c", "alg/sha256_arm.c", "alg/sha1.c", "alg/md5.c", "alg/crc32c.c", "alg/crc32c_sse42.c",
         "alg/crc32c_arm.c", "crypto/crypto_aes.c", "crypto/crypto_aes_aesni.c", "crypto/crypto_aes_arm.c", "crypto/crypto_aesctr.c",
         "crypto/crypto_aesctr_aesni.c", "crypto/crypto_aesctr_arm.c", "crypto/crypto_dh.c", "crypto/crypto_dh_group14.c", "crypto/crypto_entropy.c",
